@@ -75,7 +75,7 @@ def evaluate_scenes(case):
         mgr = make_manager(case["cfg"], case["frame"])
         tg = CFGS[case["cfg"]][0].get("target_labels")
         for fr in frames:
-            mgr.add_frame_result(fr["t"], MC.make_gt_frame(fr, case["frame"]), MC.make_estimates(fr, case["frame"]),
+            mgr.add_frame_result(fr["t"], MC.make_gt_frame(fr, case["frame"], name=fr.get("name")), MC.make_estimates(fr, case["frame"]),
                                  MC.critical_cfg(mgr, CRIT[case["crit"]], tg), MC.passfail_cfg(mgr, PF[case["pf"]], tg))
         out.append(list(mgr.frame_results))
     if mgr is None:
@@ -235,6 +235,10 @@ class AnalyzerCorr(Corr):
                     v, n = rng.choice(GEN_EGO)
                     sg = rng.choice((1, -1))
                     fr["ego"]["q"] = [sg * c / n for c in v]
+                if frame == "map" and ci % 4 == 3 and frames and rng.random() < 0.5:
+                    # a frame that carries the NAME of its predecessor under another ego pose: what interpolate_ground_truth_frames yields
+                    # (a deepcopy of the before-frame with a new ego->map entry); every row must still be in its OWN frame's ego coordinates
+                    fr["name"] = frames[-1].get("name", str(frames[-1]["index"]))
                 frames.append(fr)
             MC.assign_confidences(frames, rng, distinct=True)
             scenes.append(frames)
@@ -650,15 +654,19 @@ def oracle(case, obs):
     pairs = [(rows[2 * k][0], rows[2 * k][2], rows[2 * k + 1][2]) for k in range(len(rows) // 2)]
     # 1. one ground-truth / estimate row pair per TP, FP, TN, FN item, in this order, numbered consecutively
     expected = []
-    for s, f in frames:
-        for e, g in f["tp"]:
-            expected.append((s, f["num"], "TP", g, e))
-        for e, g in f["fp"]:
-            expected.append((s, f["num"], "FP", g, e))
-        for g in f["tn"]:
-            expected.append((s, f["num"], "TN", g, None))
-        for g in f["fn"]:
-            expected.append((s, f["num"], "FN", g, None))
+    exp_ord = []          # position of the item's frame in its scene (= the frame number unless a frame carries its predecessor's name)
+    for s, sc in enumerate(facts):
+        for fi, f in enumerate(sc):
+            n0 = len(expected)
+            for e, g in f["tp"]:
+                expected.append((s, f["num"], "TP", g, e))
+            for e, g in f["fp"]:
+                expected.append((s, f["num"], "FP", g, e))
+            for g in f["tn"]:
+                expected.append((s, f["num"], "TN", g, None))
+            for g in f["fn"]:
+                expected.append((s, f["num"], "FN", g, None))
+            exp_ord += [fi] * (len(expected) - n0)
     if len(pairs) != len(expected) or len(rows) != 2 * len(pairs):
         return f"the table has {len(pairs)} row pairs for {len(expected)} TP/FP/TN/FN items of the frame results"
     mx, my = obs["max_xy"]
@@ -674,7 +682,7 @@ def oracle(case, obs):
                 return (f"row pair {k} {side}: uuid/label/status/frame/scene {[r['uuid'], r['label'], r['status'], r['frame'], r['scene']]} "
                         f"but the item is {[o['uuid'], o['label'], st, fn_, s]}")
             # positions and yaw are expressed in the ego frame: the generated ego-frame pose, whatever frame the scene was rendered in
-            so = spec.get((s, fn_, r["uuid"]))
+            so = spec.get((s, exp_ord[k], r["uuid"]))
             if so is not None:
                 yaw = math.atan2(so["yaw_cs"][1], so["yaw_cs"][0])
                 if abs(r["x"] - so["pos"][0]) > 1e-6 or abs(r["y"] - so["pos"][1]) > 1e-6 or ang_diff(r["yaw"], yaw) > 1e-6:
@@ -686,7 +694,7 @@ def oracle(case, obs):
                 return f"row pair {k} {side}: distance column {r['distance']} is not the norm of (x, y)"
         # area: that of the estimate for TP/FP items, of the ground truth for TN/FN items
         ref = er if er is not None else gr
-        so = spec.get((s, fn_, ref["uuid"]))
+        so = spec.get((s, exp_ord[k], ref["uuid"]))
         if so is not None:
             want = expected_area(case["div"], mx, my, so["pos"][0], so["pos"][1], case["frame"] == "base_link")
             for side, r in (("ground_truth", gr), ("estimation", er)):
@@ -833,11 +841,16 @@ def oracle(case, obs):
                 return f"get_object_status (scene {s}) {u}: TP/FP/TN/FN frames {[tp, fp, tn, fn]} but the pass/fail lists give {[want[k] for k in STATUS]}"
             if sorted(total) != sorted(tp + fp + tn + fn):
                 return f"get_object_status (scene {s}) {u}: total frames {total} are not the union of its status frames"
-            dup = sorted({x for x in total if total.count(x) > 1})
+            # a ground truth recorded more than once WITHIN one frame (frames are told apart by position: two frames may carry one name,
+            # as interpolated frames do, and then legitimately contribute one entry each under the same number)
+            def _occ(f):
+                return (sum(1 for _, g in f["tp"] if g["uuid"] == u), sum(1 for _, g in f["fp"] if g is not None and g["uuid"] == u),
+                        sum(1 for g in f["tn"] if g["uuid"] == u), sum(1 for g in f["fn"] if g["uuid"] == u))
+            dupf = [f for f in sc if sum(_occ(f)) > 1]
+            dup = sorted({f["num"] for f in dupf})
             if dup and f11_status is None:
                 # F11 class: the duplicate is exactly one FP record and one FN record of an ordinary ground truth paired with a failing estimate
-                cls = all(total.count(x) == 2 and x in fp and x in fn and
-                          any(g is not None and g["uuid"] == u and not g["isfp"] for f in sc if f["num"] == x for _, g in f["fp"]) for x in dup)
+                cls = all(_occ(f) == (0, 1, 0, 1) and any(g is not None and g["uuid"] == u and not g["isfp"] for _, g in f["fp"]) for f in dupf)
                 msg = f"get_object_status (scene {s}) records ground truth {u} more than once in frame(s) {dup}: total {total}, FP {fp}, FN {fn}"
                 if not cls:
                     return msg
